@@ -386,7 +386,9 @@ def _own_subtree_expanded(repo: Repo, res: Result, m: S.SearchModel, subj: str, 
         flag = atom(f"bool({subj}.{S.PARENT_FLAG})")
         is_parent = S.to_formula(ast.Compare(left=ast.Name(id=pop, ctx=ast.Load()), ops=[ast.Eq()], comparators=[ast.Attribute(value=ast.Name(id=subj, ctx=ast.Load()), attr=S.NODE_ATTR, ctx=ast.Load())]), m.subst)
         premise = f_and([f_or([atom(f"{pop} in {o}") for o in own]), f_not(f_and([flag, is_parent]))] + [f_not(atom(f"{pop} in {v}")) for v in m.visited_sets])
-        free = sorted(a for a in atoms_of(g) if a not in atoms_of(premise) and not mentions.search(a))
+        # conditions on the edge to a neighbour (a filter of the comprehension the lookup sits in) are not conditions on the popped node
+        nvars = [re.compile(rf"(?<![\w.]){re.escape(i.var)}(?![\w])") for i in m.neighbour_iters if i.var != pop]
+        free = sorted(a for a in atoms_of(g) if a not in atoms_of(premise) and (not mentions.search(a) or any(r.search(a) for r in nvars)))
         n += 1
         key = f"{fi.relpath}::{getattr(fi, 'shown', fi.qualname)}::every node of the subject's sub-tree is expanded"
         try:
@@ -398,7 +400,15 @@ def _own_subtree_expanded(repo: Repo, res: Result, m: S.SearchModel, subj: str, 
             res.add("C01.S", key, True, f"a popped node of `{own[0]}` always reaches `{norm(c)}` (only the parent identifier of a 'sub modules of' subject is left out)", where(fi, c), kind="dominance")
             continue
         # which test keeps an own node from being expanded
-        bad = [x for x in exc if f"{pop} in {x}" in atoms_of(g)]
+        bad = []
+        for x in exc:
+            if f"{pop} in {x}" not in atoms_of(g):
+                continue
+            try:  # the lookup is reached for every own node outside x: membership in x is what keeps own nodes from being expanded
+                if _implies_for_some(f_and([premise, f_not(atom(f"{pop} in {x}"))]), g, free):
+                    bad.append(x)
+            except AnalysisError:
+                pass
         other = sorted(a for a in atoms_of(g) if mentions.search(a) and a not in atoms_of(premise) and not any(a == f"{pop} in {x}" for x in exc))
         if bad:
             test = next((t for t in ast.walk(m.loop) if isinstance(t, ast.Compare) and len(t.ops) == 1 and isinstance(t.ops[0], (ast.In, ast.NotIn)) and norm(t.left) == pop and isinstance(S.strip(t.comparators[0]), ast.Name) and (S.strip(t.comparators[0]).id == bad[0] or bad[0] in {x.id for x in ast.walk(single.get(S.strip(t.comparators[0]).id, ast.Constant(value=None))) if isinstance(x, ast.Name)})), None)
